@@ -217,6 +217,8 @@ def r5_support(ctx):
     c10.r1_sets(ctx)          # escape sets are ASCII and handled: _escape's unreachable!/from_utf8().unwrap()
     c09.r3_name_len(ctx)      # BytesStart::name_len <= buf.len()
     consume.check(ctx, "R5s") # offset counts every consumed byte: `offset - len - 2` cannot underflow
+    import c05
+    c05.r3_resolver(ctx)      # NamespaceEntry ranges index the resolver's buffer: push/pop keep bindings and buffer in step
     for o in ctx.obs[n0:]:
         if o["rule"] != "R5s":
             o["site"] = o["rule"] + ":" + o["site"]
